@@ -9,7 +9,7 @@
     append batch has consecutive indices and starts between base+1 and last+1 (what the
     consensus library hands over). *)
 From Coq Require Import ZArith NArith List Bool.
-From Verif Require Import RaftWal.Wal RaftWal.WalProofs RaftWal.Membership RaftWal.MembershipProofs.
+From Verif Require Import RaftWal.Wal RaftWal.WalProofs RaftWal.Membership RaftWal.MembershipProofs RaftWal.Server RaftWal.ServerProofs.
 Import ListNotations.
 Open Scope N_scope.
 
@@ -136,3 +136,80 @@ Theorem C16_removed_never_member_again : forall rs c,
   disjoint_ids c -> disjoint_ids (fold_left apply_req rs c).
 Proof. exact removed_never_member_again_run. Qed.
 Print Assumptions C16_removed_never_member_again.
+
+(** raftserver.go around restart and snapshot.  replayWAL: after any well-formed history, with
+    identity and hard state stored and the stored snapshot (index > 0) inside the log, the
+    consensus library's storage is started with exactly the acknowledged log after the snapshot,
+    the stored hard state, and a last index equal to the WAL's. *)
+Theorem C16_replay_hands_over_log : forall ops w hs idn s sterm,
+  history_wf (mk_rlog 0 []) ops -> wrun wal_empty ops = Some w ->
+  let r := spec_run (mk_rlog 0 []) ops in
+  w_hs w = Some hs -> w_id w = Some idn ->
+  ((exists dat, w_snap w = Some (s, sterm, dat) /\ 0 < s) \/ (w_snap w = None /\ s = 0 /\ sterm = 0)) ->
+  base r <= s -> s <= base r + N.of_nat (length (ents r)) ->
+  (forall e, In e (skipn (N.to_nat (s - base r)) (ents r)) -> e_type e <= 2 /\ sterm <= e_term e) ->
+  exists m, replay w = Some m /\ ms_snap m = (s, sterm) /\ ms_hs m = hs /\
+            ms_ents m = map to_raft (skipn (N.to_nat (s - base r)) (ents r)) /\
+            ms_last m = last_index w.
+Proof. exact replay_hands_over_log. Qed.
+Print Assumptions C16_replay_hands_over_log.
+
+(** entriesToApply: exactly the committed entries above appliedIndex, none twice, none skipped. *)
+Theorem C16_entries_to_apply_spec : forall applied i0 ents,
+  consecutive_r i0 ents = true -> i0 <= applied + 1 -> ents <> [] ->
+  exists l, entries_to_apply applied ents = Some l /\
+            forall e, In e l <-> (In e ents /\ applied < r_index e).
+Proof. exact entries_to_apply_spec. Qed.
+Print Assumptions C16_entries_to_apply_spec.
+
+(** triggerSnapshot: the snapshot written to the WAL is at the last connected index; the in-memory
+    log is only compacted forward; nothing happens within the snapshot frequency; as configured
+    (catch-up entries = snapshot frequency) a triggered snapshot compacts forward to an index in
+    (off, idx] and advances rs.snapshotIndex.  (With a catch-up window larger than the frequency
+    — only reachable through the DEBUG_RAFT_SNAP_FREQ test hook — Compact answers ErrCompacted and
+    rs.snapshotIndex is not advanced: modelled, listed in the notes.) *)
+Theorem C16_trigger_snapshot_spec : forall idx snap freq catchup off s k i,
+  trigger_snapshot idx snap freq catchup off = Some (s, k, i) ->
+  s = idx /\ off <= k /\ (snap <= idx -> freq < idx - snap) /\
+  (off < (if catchup <? idx then idx - catchup else 1) -> k = (if catchup <? idx then idx - catchup else 1) /\ 1 <= k /\ k <= s /\ i = idx).
+Proof. exact trigger_snapshot_spec. Qed.
+Print Assumptions C16_trigger_snapshot_spec.
+Theorem C16_trigger_snapshot_waits : forall idx snap freq catchup off,
+  snap <= idx -> idx - snap <= freq -> trigger_snapshot idx snap freq catchup off = None.
+Proof. exact trigger_snapshot_waits. Qed.
+Print Assumptions C16_trigger_snapshot_waits.
+Theorem C16_trigger_snapshot_advances : forall idx snap freq off s k i,
+  off <= snap -> snap <= idx -> trigger_snapshot idx snap freq freq off = Some (s, k, i) ->
+  i = idx /\ off < k /\ k <= idx.
+Proof. exact trigger_snapshot_advances. Qed.
+Print Assumptions C16_trigger_snapshot_advances.
+
+(** HasWal accepts exactly a stored identity with the configured name and peer id plus a hard state. *)
+Theorem C16_has_wal_spec : forall w name peer,
+  has_wal w name peer = 0 <-> exists c i, w_id w = Some (c, i, name, peer) /\ w_hs w <> None.
+Proof. exact has_wal_spec. Qed.
+Print Assumptions C16_has_wal_spec.
+
+(** One membership change in flight: a second proposal is refused while one is saved; a
+    completion for another request id does not free the slot; a busy channel leaves nothing saved. *)
+Theorem C16_submit_while_pending_refused : forall s c x, ps_saved s = Some c -> submit s x = (s, PPending).
+Proof. exact submit_while_pending_refused. Qed.
+Print Assumptions C16_submit_while_pending_refused.
+Theorem C16_after_other_id_ignored : forall s c x, ps_saved s = Some c -> c <> x -> after_conf_change s x = s.
+Proof. exact after_other_id_ignored. Qed.
+Print Assumptions C16_after_other_id_ignored.
+Theorem C16_submit_busy_leaves_nothing : forall s x s', submit s x = (s', PBusy) -> ps_saved s' = None /\ ps_chan s' = ps_chan s.
+Proof. exact submit_busy_leaves_nothing. Qed.
+Print Assumptions C16_submit_busy_leaves_nothing.
+
+(** Cluster.Recover(snapshot): applied ids = the snapshot's members, removed ids = the snapshot's
+    removed members (both branches), so a removed id is still refused after a restart. *)
+Theorem C16_recover_ids : forall c ms rs id,
+  is_exist (fst (recover c ms rs)) id = is_exist ms id /\ is_exist (snd (recover c ms rs)) id = is_exist rs id.
+Proof. exact recover_ids. Qed.
+Print Assumptions C16_recover_ids.
+Theorem C16_removed_refused_after_recover : forall c ms rs applied' t m,
+  m_id m <> 0 -> is_exist rs (m_id m) = true ->
+  validate_change_membership applied' (snd (recover c ms rs)) t (Some m) = VAlreadyRemoved.
+Proof. exact removed_refused_after_recover. Qed.
+Print Assumptions C16_removed_refused_after_recover.
